@@ -217,7 +217,7 @@ def check_dirs(ctx):
     prog = ctx.prog
     t = load_table(ctx)
     r = t.roles
-    lr = r.load_rules
+    lr = r.load_body
     W = lambda n: ctx.where(lr.module, n)
     # loop over the option accumulating existing dirs; loop over them calling
     # the walker
@@ -420,7 +420,7 @@ def check_walker(ctx):
 def check_skip(ctx):
     prog = ctx.prog
     r = roles(ctx)
-    lr = r.load_rules
+    lr = r.load_body
     n = 0
     for tnode in walk_no_nested(lr.node):
         if not isinstance(tnode, ast.Try):
